@@ -72,11 +72,15 @@ def ty_of(e):
         return 'tup'
     if k == 'lst':
         et = ty_of(e[2])
-        if et == 'tup' and [ty_of(x) for x in e[2][1]] == ['str', 'num']:
+        if et == 'tup' and [ty_of(x) for x in e[2][1]] in (['str', 'num'], ['str', 'int']):
             return 'dict:num'
+        if et == 'tup':
+            return 'list:tup'
         return 'list:' + et
     if k == 'nan':
         return 'nan'
+    if k == 'flt':
+        return 'list:str'
     if k == 'opaque':
         raise Untranslatable('use of a value the translator does not model (%s)' % e[1])
     raise Untranslatable('type of %r' % (e,))
@@ -169,15 +173,19 @@ def pr(e):
         return '(' + ', '.join((as_num(x) if ty_of(x) in ('num',) else pr(x)) for x in e[1]) + ')'
     if k == 'lst':
         base, elem = e[1], e[2]
-        if elem == ELEM_ID:
+        if elem in (ELEM_ID, ELEM_OPT, ELEM_STR):
             return base
         return '(List.map (fun x => %s) %s)' % ((as_num(elem) if ty_of(elem) == 'num' else pr(elem)), base)
+    if k == 'flt':
+        return '(List.filterMap (fun x => if %s then some %s else none) %s)' % (pr(e[2]), pr(e[3]), e[1])
     if k == 'struct':
         return '{ ' + ', '.join('%s := %s' % (f, (as_num(v) if t == 'num' else pr(v))) for f, t, v in e[2]) + ' }'
     raise Untranslatable('print %r' % (e,))
 
 
 ELEM_ID = ('tup', [('var', 'x.1', 'str'), ('var', 'x.2', 'num')])
+ELEM_OPT = ('tup', [('var', 'x.1', 'str'), ('var', 'x.2', 'optint')])
+ELEM_STR = ('var', 'x', 'str')
 
 
 def _pr_any(a):
@@ -268,6 +276,7 @@ class ClassUnit:
         if not self.methods:
             raise Untranslatable('class %s not found in %s' % (cls, path))
         self.attr_types = attr_types          # python attr -> type
+        self.known_some = set()               # optionals known to hold a value at this point of an `and`
         self.expr_subst = {}                  # unparsed expression -> sym: reads of other components' state
         self.call_subst = []                  # [(suffix of the unparsed callee, handler)]: calls into other components
         self.callables = {}                   # python property -> (Lean call text, type): kept as calls, not inlined
@@ -348,6 +357,10 @@ class ClassUnit:
             left = self.ev(n.left, ctx, depth)
             for op, rn in zip(n.ops, n.comparators):
                 right = self.ev(rn, ctx, depth)
+                if isinstance(op, (ast.Is, ast.IsNot)) and len(n.ops) == 1 and ty_of(left) == 'optint' and ty_of(right) == 'none':
+                    e_ = ('var', '(%s).isSome' % pr(left), 'bool')
+                    self.known_some.add(pr(left))
+                    return e_ if isinstance(op, ast.IsNot) else ('not', e_)
                 if isinstance(op, (ast.Is, ast.IsNot)):
                     # `x is None` / `x is not None` with a statically typed x
                     tl, tr = ty_of(left), ty_of(right)
@@ -357,6 +370,14 @@ class ClassUnit:
                     return ('blit', same if isinstance(op, ast.Is) else not same)
                 if type(op) not in ops:
                     raise Untranslatable('comparison %s' % type(op).__name__)
+
+                def unopt(v):
+                    if v[0] == 'var' and v[2] == 'optint':
+                        if pr(v) not in self.known_some:
+                            raise Untranslatable('comparison with a value that may be None')
+                        return ('var', '((%s).getD 0)' % pr(v), 'int')
+                    return v
+                left, right = unopt(left), unopt(right)
                 if isinstance(op, (ast.Eq, ast.NotEq)) and len(n.ops) == 1:
                     # a number is never NaN on the carrier: `x == nan`, `(a, b) == (nan, nan)` are False
                     def has_nan(v):
@@ -367,7 +388,13 @@ class ClassUnit:
                 left = right
             return parts[0] if len(parts) == 1 else ('and', parts)
         if isinstance(n, ast.BoolOp):
-            vals = [self.truth(self.ev(v, ctx, depth)) for v in n.values]
+            saved = set(self.known_some)
+            vals = []
+            for v in n.values:
+                vals.append(self.truth(self.ev(v, ctx, depth)))
+                if not isinstance(n.op, ast.And):
+                    self.known_some = set(saved)
+            self.known_some = saved
             return ('and' if isinstance(n.op, ast.And) else 'or', vals)
         if isinstance(n, ast.IfExp):
             return ('ite', self.truth(self.ev(n.test, ctx, depth)), self.ev(n.body, ctx, depth), self.ev(n.orelse, ctx, depth))
@@ -382,7 +409,7 @@ class ClassUnit:
                 return base[1][idx.value]
             raise Untranslatable('subscript')
         if isinstance(n, (ast.ListComp, ast.GeneratorExp, ast.DictComp)):
-            if len(n.generators) != 1 or n.generators[0].ifs or n.generators[0].is_async:
+            if len(n.generators) != 1 or len(n.generators[0].ifs) > 1 or n.generators[0].is_async:
                 raise Untranslatable('comprehension shape')
             g = n.generators[0]
             src = self.ev(g.iter, ctx, depth)
@@ -390,6 +417,14 @@ class ClassUnit:
                 raise Untranslatable('comprehension over a %s' % src[0])
             c2 = ctx.copy()
             self.bind_pattern(g.target, src[2], c2)
+            if g.ifs:
+                if isinstance(n, ast.DictComp) or src[2] != ELEM_OPT:
+                    raise Untranslatable('filtered comprehension shape')
+                cond = self.truth(self.ev(g.ifs[0], c2, depth))
+                elem = self.ev(n.elt, c2, depth)
+                if ty_of(elem) != 'str':
+                    raise Untranslatable('filtered comprehension element')
+                return ('flt', src[1], cond, elem)
             if isinstance(n, ast.DictComp):
                 elem = ('tup', [self.ev(n.key, c2, depth), self.ev(n.value, c2, depth)])
             else:
@@ -422,7 +457,7 @@ class ClassUnit:
                 return handler(self, n, ctx, depth)
         if isinstance(f, ast.Attribute) and f.attr in ('values', 'items', 'keys') and not n.args and not n.keywords:
             base = self.ev(f.value, ctx, depth)
-            if base[0] == 'lst' and ty_of(base) == 'dict:num':
+            if base[0] == 'lst' and base[2] in (ELEM_ID, ELEM_OPT):
                 k_, v_ = base[2][1]
                 return ('lst', base[1], {'values': v_, 'items': base[2], 'keys': k_}[f.attr])
             raise Untranslatable('.%s() of a %s' % (f.attr, base[0]))
@@ -923,8 +958,9 @@ UNITS = [POSITION]
 
 class KFn:
     def __init__(self, key, path, cls, py, lean, binders, fields, params, ret, statement, defs, kind='pure', subst=(), sink=None,
-                 loop_bind=None, obj_types=None, expr_subst=None):
+                 loop_bind=None, obj_types=None, expr_subst=None, proof=None):
         self.expr_subst = expr_subst or {}
+        self.proof = proof
         self.key, self.path, self.cls, self.py, self.lean = key, path, cls, py, lean
         self.binders = binders          # [(lean name, lean type)]
         self.fields = fields            # python self attribute -> sym
@@ -1058,7 +1094,7 @@ def translate_kfn(fn):
                 if t[2].fields[a] is not fields[a]:
                     raise Untranslatable('attribute write')
             return ('(.ok %s)' % val(t[1])) if exc else val(t[1])
-        lt = {'num': 'α', 'int': 'Int', 'dict:num': 'Qs.Weights α', 'struct': 'Qs.Txn α'}[rt]
+        lt = {'num': 'α', 'int': 'Int', 'dict:num': 'Qs.Weights α', 'struct': 'Qs.Txn α', 'list:str': 'List String'}[rt]
         rty = ('Except Err (%s)' % lt) if exc else lt
         body = pr_tree(tree, leaf, 1)
         return 'def %s%s : %s :=\n  %s\n' % (fn.lean.split('.')[-1], binders, rty, body), None
@@ -1151,6 +1187,20 @@ KFNS = [
                ('get_asset_latest_ask_price', _const_subst(V('price', 'num')))],
         statement='(fee : Qs.FeeModel α) (equity weight price : α) :\n    GEN fee equity weight price = Qs.lsQuantity fee equity weight price',
         defs=SIZER_DEFS),
+    KFn('Universe.dynamicAssets', 'qstrader/asset/universe/dynamic.py', 'DynamicUniverse', 'get_assets', 'Universe.dynamicAssets',
+        binders=[('dates', 'List (String × Option Int)'), ('t', 'Int')], fields=dict(asset_dates=('lst', 'dates', ELEM_OPT)),
+        params=[('dt', V('t', 'int'))], ret='list:str',
+        statement='(dates : List (String × Option Int)) (t : Int) :\n    GEN dates t = Qs.dynamicAssets dates t', defs=['Qs.dynamicAssets'],
+        proof='simp only [DEFS]\n  apply List.filterMap_congr\n  rintro ⟨a, _ | e⟩ _ <;> simp'),
+    KFn('Optimiser.equalWeight', 'qstrader/portcon/optimiser/equal_weight.py', 'EqualWeightPortfolioOptimiser', '__call__', 'Optimiser.equalWeight',
+        binders=[('scale', 'α'), ('w', 'Qs.Weights α')], fields=dict(scale=V('scale', 'num')),
+        params=[('dt', ('opaque', 'the timestamp')), ('initial_weights', W)], ret='dict:num',
+        statement='(scale : α) (w : Qs.Weights α) :\n    GEN scale w = Qs.equalWeight scale w', defs=['Qs.equalWeight']),
+    KFn('Alpha.singleSignal', 'qstrader/alpha_model/single_signal.py', 'SingleSignalAlphaModel', '__call__', 'Alpha.singleSignal',
+        binders=[('assets', 'List String'), ('signal', 'α')], fields=dict(signal=V('signal', 'num')),
+        params=[('dt', ('opaque', 'the timestamp'))], ret='dict:num',
+        subst=[('universe.get_assets', _const_subst(('lst', 'assets', ELEM_STR)))],
+        statement='(assets : List String) (signal : α) :\n    GEN assets signal = Qs.singleSignal assets signal', defs=['Qs.singleSignal']),
     KFn('Broker.makeTxn', 'qstrader/broker/simulated_broker.py', 'SimulatedBroker', '_execute_order', 'Broker.makeTxn',
         binders=[('clock', 'Int'), ('fee', 'Qs.FeeModel α'), ('cash', 'α'), ('bid', 'α'), ('ask', 'α'), ('o', 'Qs.Order')],
         fields=dict(current_dt=V('clock', 'int')), expr_subst={'self.portfolios[portfolio_id].cash': V('cash', 'num')},
@@ -1548,8 +1598,12 @@ def generate(outdir=None, verbose=False, omit_defs=(), omit_thms=()):
         else:
             t0 = tie.count('\n') + 1
             core = ['Qs.Gen.' + fn.lean] + fn.defs
-            tie += 'theorem %s %s := by\n  first\n  | qs_tie [%s]\n  | qs_tie_h h [%s]\n\n' % (
-                name, fn.statement.replace('GEN', 'Qs.Gen.' + fn.lean), ', '.join(core), ', '.join(core))
+            if fn.proof:
+                tie += 'theorem %s %s := by\n  %s\n\n' % (name, fn.statement.replace('GEN', 'Qs.Gen.' + fn.lean),
+                                                         fn.proof.replace('DEFS', ', '.join(core)))
+            else:
+                tie += 'theorem %s %s := by\n  first\n  | qs_tie [%s]\n  | qs_tie_h h [%s]\n\n' % (
+                    name, fn.statement.replace('GEN', 'Qs.Gen.' + fn.lean), ', '.join(core), ', '.join(core))
             ent['thm_span'] = [t0, tie.count('\n')]
         status[fn.key] = ent
     for fn in EFNS:
